@@ -26,6 +26,7 @@ def plan(tier, seed):
     specs += [dict(kind='random', set='arm', seed=seed, shard=i, n=15000 if q else 400000) for i in range(4 if q else 16)]
     nr = 8 if q else 32
     specs += [dict(kind='rows', set='arm', seed=seed, shard=i, of=nr, per_row=120 if q else 8000) for i in range(nr)]
+    specs += [dict(kind='steps', set='arm', seed=seed, shard=i, n=4000 if q else 150000) for i in range(3 if q else 12)]
     nf = 16 if q else 64
     specs += [dict(kind='fields', set='arm', seed=seed, shard=i, of=nf, cap=2500 if q else 60000) for i in range(nf)]
     return specs
